@@ -48,12 +48,15 @@ DEFAULT_STYLES = {
 }
 
 
-def source(sig, fname="f", method=False, is_async=False, body=None, dstyle=0):
-    """Python source text of a def with this signature."""
+def source(sig, fname="f", method=False, is_async=False, body=None, dstyle=0, self_slash=False):
+    """Python source text of a def with this signature (self_slash: 'def f(self, /, ...)' for a method without
+    positional-only parameters of its own, so that 'self' may come back as a surplus keyword)."""
     parts = []
     kinds = [s[0] for s in sig]
     if method:
         parts.append("self")
+        if self_slash and "P" not in kinds:
+            parts.append("/")
     for i, (kind, name, d) in enumerate(sig):
         if kind == "V":
             parts.append("*" + name)
@@ -84,7 +87,10 @@ def sig_str(sig):
     return source(sig).split("\n")[0][4:-1]
 
 
-def call_shapes(sig, extra_kw=("zz", "yy")):
+LOCALS_BODY = "    return dict(locals())\n"
+
+
+def call_shapes(sig, extra_kw=("zz", "yy"), method=False):
     """All call shapes (npos, kwnames): npos positionals, then keywords.
 
     npos ranges over 0..(#positional params)+2; kwnames over every subset of
@@ -99,7 +105,13 @@ def call_shapes(sig, extra_kw=("zz", "yy")):
     has_w = any(s[0] == "W" for s in sig)
     extras = [(), extra_kw[:1], extra_kw[:2], ("_a",)]   # '_a' sorts before every parameter name, 'zz' after
     if has_w and posonly:
+        # keywords that repeat a positional-only name land under '**' (whether or not that parameter is passed)
         extras.append((posonly[0],))
+        if len(posonly) > 1:
+            extras.append((posonly[-1],))
+            extras.append((posonly[0], posonly[-1]))
+    if has_w and method:
+        extras.append(("self",))      # accepted by Python when 'self' is positional-only
     for npos in range(0, len(pos) + 3):
         for r in range(len(nameable) + 1):
             for kws in itertools.combinations(nameable, r):
@@ -116,21 +128,21 @@ def values_for(npos, kwnames):
 
 def python_binding(func, args, kwargs):
     """What Python binds, in filter_args' output vocabulary, or None if Python
-    rejects the call."""
-    sig = inspect.signature(func)
+    rejects the call.  The reference is the interpreter itself: the function (body LOCALS_BODY) is really called
+    and reports its locals - inspect.Signature.bind() of Python 3.12.1 wrongly rejects a surplus keyword that
+    repeats the name of an omitted positional-only parameter, so it cannot define the domain."""
     try:
-        ba = sig.bind(*args, **kwargs)
+        loc = func(*args, **kwargs)
     except TypeError:
         return None
-    ba.apply_defaults()
     out = {}
-    for name, p in sig.parameters.items():
+    for name, p in inspect.signature(func).parameters.items():   # for a bound method: without self
         if p.kind is p.VAR_POSITIONAL:
-            out["*"] = list(ba.arguments[name])
+            out["*"] = list(loc[name])
         elif p.kind is p.VAR_KEYWORD:
-            out["**"] = dict(ba.arguments[name])
+            out["**"] = dict(loc[name])
         else:
-            out[name] = ba.arguments[name]
+            out[name] = loc[name]
     return out
 
 
